@@ -80,6 +80,10 @@ const JUNK: &[&[u8]] = &[
     b"-\xc3\xa9=v",
     b"-\xc3\xa9",
     b"caf\xc3\xa9's",
+    // a multi-byte character right in front of a space inside one item
+    b"caf\xc3\xa9 latte",
+    b"n\xc3\xa9 1",
+    b"\xff oops",
     b"\xc3\xa9a');touch x;#",
     b"--na\xc3\xafve's",
     b"--x=\xff\xfe",
